@@ -163,6 +163,12 @@ impl Property for C17 {
             .prop_map(|(us, raw_ops, f32)| c17_from_raw(&us, raw_ops, f32))
             .boxed()
     }
+    /// the same search again, a fifth of the cases, in the overflow-checked build of the harness
+    /// (debug assertions and overflow checks of the library on): "never a panic" is a claim about
+    /// every build profile
+    fn epilogue(&self, tier: Tier, seed: u64, _counters: &std::collections::BTreeMap<String, u64>, extra: &mut std::collections::BTreeMap<String, serde_json::Value>) -> Result<(), (Fail, serde_json::Value)> {
+        crate::engine::run_checked_profile_n("C17", tier, seed, Some((self.cases(tier) / 5).max(50)), extra)
+    }
     fn check(&self, case: &C17Case) -> Check {
         if case.f32 {
             run::<f32>(case)
